@@ -23,6 +23,24 @@ enum DEv {
     End { reg: usize },
 }
 
+fn tx_drop(rng: &mut Rng) -> Vec<TxOp> {
+    match rng.below(8) {
+        0 => vec![TxOp::Remove],
+        1 => vec![TxOp::Replace(Content::text("r"))],
+        2 => vec![TxOp::Before(Content::html("<!--b-->"))],
+        _ => vec![],
+    }
+}
+
+fn cm_drop(rng: &mut Rng) -> Vec<CmOp> {
+    match rng.below(8) {
+        0 => vec![CmOp::Remove],
+        1 => vec![CmOp::Replace(Content::text("r"))],
+        2 => vec![CmOp::After(Content::text("a"))],
+        _ => vec![],
+    }
+}
+
 fn gen_case(rng: &mut Rng) -> Case {
     let o = select::GenOpts { allow_not: false, ..super::c04::gen_opts() };
     let custom = rng.chance(1, 12);
@@ -61,16 +79,18 @@ fn gen_case(rng: &mut Rng) -> Case {
                 }
                 sc.handlers.push(HandlerSpec::Element { sel, ops });
             }
+            // text / comment handlers sometimes drop or replace their token: every other handler
+            // whose scope covers the token must still be invoked with it
             3 | 4 => {
                 let sel = pick_sel(rng, &mut sels);
-                sc.handlers.push(HandlerSpec::Text { sel: Some(sel), ops: vec![], when: TextWhen::Always });
+                sc.handlers.push(HandlerSpec::Text { sel: Some(sel), ops: tx_drop(rng), when: TextWhen::Always });
             }
             5 => {
                 let sel = pick_sel(rng, &mut sels);
-                sc.handlers.push(HandlerSpec::Comment { sel: Some(sel), ops: vec![] });
+                sc.handlers.push(HandlerSpec::Comment { sel: Some(sel), ops: cm_drop(rng) });
             }
-            6 => sc.handlers.push(HandlerSpec::Text { sel: None, ops: vec![], when: TextWhen::Always }),
-            7 => sc.handlers.push(HandlerSpec::Comment { sel: None, ops: vec![] }),
+            6 => sc.handlers.push(HandlerSpec::Text { sel: None, ops: tx_drop(rng), when: TextWhen::Always }),
+            7 => sc.handlers.push(HandlerSpec::Comment { sel: None, ops: cm_drop(rng) }),
             8 => sc.handlers.push(HandlerSpec::Doctype { remove: false }),
             _ => sc.handlers.push(HandlerSpec::End { ops: vec![] }),
         }
